@@ -93,6 +93,7 @@ def res (s : St) (r : Option St) : St × String :=
 def step (s : St) (toks : List String) : St × String :=
   match toks with
   | ["reset"] => ({}, "ok")
+  | ["endblock"] => (endBlock s, "ok")
   | ["time", t] =>
     match nat? t with
     | some t => ({ s with now := t }, "ok")
